@@ -1259,7 +1259,13 @@ int32 matrixRegisterSession(ssl_t *ssl)
  */
     Memcpy(g_sessionTable[i].masterSecret, ssl->sec.masterSecret,
         SSL_HS_MASTER_SIZE);
-    g_sessionTable[i].cipher = ssl->cipher;
+/*
+    The entry must not be resumable yet: the session id goes out in the
+    clear with ServerHello, long before there is a master secret and before
+    the peer has proven anything.  matrixResumeSession refuses an entry
+    without a cipher; matrixUpdateSession sets it once the handshake is done.
+ */
+    g_sessionTable[i].cipher = NULL;
     g_sessionTable[i].inUse += 1;
 /*
     The sessionId is the current serverRandom value, with the first 4 bytes
@@ -1464,7 +1470,9 @@ int32 matrixUpdateSession(ssl_t *ssl)
     }
     Memcpy(g_sessionTable[i].masterSecret, ssl->sec.masterSecret,
         SSL_HS_MASTER_SIZE);
-    g_sessionTable[i].cipher = ssl->cipher;
+    /* Resumable only once this handshake has completed, i.e. the peer's
+       Finished (and CertificateVerify, if requested) has been verified. */
+    g_sessionTable[i].cipher = (ssl->hsState == SSL_HS_DONE) ? ssl->cipher : NULL;
     psUnlockMutex(&g_sessionTableLock);
     return PS_SUCCESS;
 }
